@@ -26,6 +26,7 @@ type Clause struct {
 	Label  string
 	File   string
 	Line   int
+	After  bool // assert/assign bound to a call site: after the call returned (default: before)
 	Hypothesis bool // requires clause that states a hypothesis of the property (input/environment): assumed at entry, not checked at call sites, reported as assumption
 }
 
@@ -449,6 +450,11 @@ func (cs *Contracts) parseFile(fname, pkg, prefix string) {
 		case "assert", "assume", "assign":
 			// assert at "source text"#k EXPR   |  assert call NAME#k EXPR
 			r := rest
+			if strings.HasPrefix(r, "after ") {
+				// after "source text": evaluated when the call at that site has returned
+				c.After = true
+				r = "at " + strings.TrimSpace(r[6:])
+			}
 			if strings.HasPrefix(r, "at ") {
 				r = strings.TrimSpace(r[3:])
 				if !strings.HasPrefix(r, "\"") {
